@@ -1776,7 +1776,7 @@ var assumptions = []string{
 	"background compactions/retention are off (mini fixture); the level-compaction goroutine that DeleteSeriesRange starts has nothing to do with < 4 TSM files per shard",
 }
 
-const quickBudgetS, thoroughBudgetS = 55, 1300
+const quickBudgetS, thoroughBudgetS = 60, 1300
 
 func TestCheck(t *testing.T) {
 	vlib.Main(t, &vlib.Check{
@@ -1787,7 +1787,7 @@ func TestCheck(t *testing.T) {
 		WorkerEnv: []string{"GOMAXPROCS=1"},
 		Run: func(c *vlib.Ctx) {
 			part := os.Getenv("C17_PART") // debugging aid: "hist" or "sched" runs only that part
-			// part 2 (schedules) first, with at most 45% of the wall budget; part 1 gets the rest
+			// part 2 (schedules) first, with at most 55% of the wall budget; part 1 gets the rest
 			budget := time.Duration(quickBudgetS) * time.Second
 			if c.Thorough() {
 				budget = time.Duration(thoroughBudgetS) * time.Second
@@ -1795,7 +1795,7 @@ func TestCheck(t *testing.T) {
 			if v, err := strconv.Atoi(os.Getenv("VERIF_BUDGET_S")); err == nil && v > 0 {
 				budget = time.Duration(v) * time.Second
 			}
-			schedDeadline := time.Now().Add(budget * 45 / 100)
+			schedDeadline := time.Now().Add(budget * 55 / 100)
 			if part != "hist" {
 				runSchedules(t, c, func() bool { return c.Expired() || time.Now().After(schedDeadline) })
 			}
